@@ -1,19 +1,23 @@
 /-
 Model of /repo/src/fpgroups/invariants.rs  (import-free, executable).
 
-`isize` is modelled by `Int` (Rust `/` and `%` truncate: `Int.tdiv`, `Int.tmod`); a second,
-instrumented copy of every routine (`…B`, bottom of the file) also returns the largest absolute
-value of any intermediate result, so that the driver can exclude inputs on which the machine
-type could overflow (DESIGN §5.6).  `…B_fst` lemmas (Proofs/InvariantsBound.lean) show that the
+Since the `fix:` commit for finding F-C14-overflow the routines are generic over
+`T: Signed + Clone + PartialOrd` and `abelian_invariants` instantiates them with `BigInt`: the model
+over `Int` (`/` and `%` truncate: `Int.tdiv`, `Int.tmod`) is their exact semantics.  (The pinned
+tree computed over `isize` and overflowed on small inputs.)  A second, instrumented copy of every
+routine (`…B`, bottom of the file) also returns the largest absolute value of any intermediate
+result; it is no longer needed for the correspondence and is kept for the statements that mention
+the old no-overflow bound.  `…B_fst` lemmas (Proofs/InvariantsBound.lean) show that the
 instrumented copy computes the same value.
 
-A matrix `Vec<Vec<isize>>` is a `List (List Int)`.  Every matrix that reaches
+A matrix `Vec<Vec<T>>` is a `List (List Int)`.  Every matrix that reaches
 `diagonalize_in_place` is built by `abelian_invariants` from `relator_as_vector` rows, hence is
 non-empty and rectangular with `m = nr_gens ≥ 1` columns; all index expressions of the Rust code
 range over `0..n` / `0..m`, so they are in range and the accessors below are total
-(`rect_*` lemmas in Proofs/InvariantsDiag.lean).  The only reachable panics are the index
-expressions of `relator_as_vector` (letter 0 or |letter| > nr_gens) and arithmetic overflow
-(covered by the bound of the instrumented copy).
+(`Rect.*` / `rect_*` lemmas in Proofs/InvariantsDiag.lean).  The only reachable panics are the
+index expressions of `relator_as_vector` (letter 0 or |letter| > nr_gens) and a factor that does
+not fit `usize` in the final conversion (the model returns unbounded naturals).
+`move_pivot_in_place` swaps whole rows (`mat.swap`) and entries of each row (`mat[r].swap`).
 -/
 import DSymVerif.Model.Outcome
 
@@ -50,12 +54,21 @@ def get (mat : Mat) (r c : Nat) : Int := (mat.getD r []).getD c 0
 /-- `mat[r][c] = v` -/
 def set (mat : Mat) (r c : Nat) (v : Int) : Mat := List.set mat r ((mat.getD r []).set c v)
 
+/-- `isize::MAX` (no longer used by the model since the `fix:` commit for F-C14-overflow; kept for
+    the statements that still mention the old no-overflow bound) -/
 def isizeMax : Int := 9223372036854775807
 
-/-- body of the double loop of `find_pivot`; state `(row, col, min)` -/
-def pivotStep (mat : Mat) (r : Nat) (st : Nat × Nat × Int) (c : Nat) : Nat × Nat × Int :=
+/-- `min.as_ref().map_or(true, |min| v < *min)` -/
+def ltMin (v : Int) : Option Int → Bool
+  | none => true
+  | some m => decide (v < m)
+
+/-- body of the double loop of `find_pivot`; state `(row, col, min)`, `min : Option<T>`
+    (after the `fix:` commit for F-C14-overflow; the pinned tree started the search at
+    `isize::MAX` and overlooked entries of that magnitude) -/
+def pivotStep (mat : Mat) (r : Nat) (st : Nat × Nat × Option Int) (c : Nat) : Nat × Nat × Option Int :=
   let v : Int := (get mat r c).natAbs
-  if v ≠ 0 ∧ v < st.2.2 then (r, c, v) else st
+  if v ≠ 0 ∧ ltMin v st.2.2 = true then (r, c, some v) else st
 
 /-- `fn find_pivot(mat, start) -> (row, col)` -/
 def findPivot (mat : Mat) (start : Nat) : Nat × Nat :=
@@ -63,7 +76,7 @@ def findPivot (mat : Mat) (start : Nat) : Nat × Nat :=
   let m := ncols mat
   let st := (List.range' start (n - start)).foldl
     (fun st r => (List.range' start (m - start)).foldl (pivotStep mat r) st)
-    (start, start, isizeMax)
+    (start, start, none)
   (st.1, st.2.1)
 
 /-- `for c in 0..m { swap(mat[row][c], mat[target][c]) }` on rows of equal length `m` -/
